@@ -82,8 +82,10 @@ retry_sem_wait:
 			 * is what the list says: the token of the last one
 			 * may have been taken before the request was made.
 			 */
+			int32_t leave = wthread_should_exit;
+
 			(void)qb_thread_unlock(logt_wthread_lock);
-			if (wthread_should_exit) {
+			if (leave) {
 				pthread_exit(NULL);
 			}
 			continue;
